@@ -1032,6 +1032,15 @@ def _run(ctx, server_tz):
     if asgi and knobs['lost_mode'] == 'drop':
         ctx.probe('lost_drop_mode')
 
+    # an earlier, fault-free request served by the same app (another path / range): the
+    # route must not remember anything from it (file objects, sizes, ranges, validators)
+    pre_req = gen_request(ch, cfg) if ch.draw(3, 'pre_request') == 2 else None
+    if pre_req is not None:
+        ctx.plan['pre_request'] = {'method': pre_req.method, 'target': pre_req.shown[:120],
+                                   'range': pre_req.range_val}
+        ctx.plan_key = json.dumps(ctx.plan, sort_keys=True)
+        ctx.probe('pre_request')
+
     # ---- all workload draws are done; the fault site comes next, schedule
     # ---- draws (short-read lengths, loop scheduling) after it
     if knobs['faults']:
@@ -1041,12 +1050,16 @@ def _run(ctx, server_tz):
     state = {'fault': None, 'sched': '', 'faults': knobs['faults']}
 
     def fault(kind):
+        if state.get('pre'):
+            return False
         if knobs['faults'] and ctx.opportunity(kind):
             state['fault'] = kind
             return True
         return False
 
     def short(n):
+        if state.get('pre'):
+            return n
         if knobs['short'] and ch.fault('short_read'):
             return 1 + ch.draw(n - 1, 'short_len')
         return n
@@ -1055,6 +1068,16 @@ def _run(ctx, server_tz):
     app = build_app(cfg, asgi, knobs['block'])
     try:
         with disksim.patched(static_mod, ctl):
+            if pre_req is not None:
+                state['pre'] = True
+                pre_knobs = dict(knobs)
+                pre_knobs['faults'] = False
+                try:
+                    (exchange_asgi if asgi else exchange_wsgi)(ctx, app, pre_req, pre_knobs,
+                                                               {'fault': None, 'sched': '', 'faults': False})
+                finally:
+                    state['pre'] = False
+                    ctl.close_all()
             disksim.audit_start()
             try:
                 resp, steps = (exchange_asgi if asgi else exchange_wsgi)(ctx, app, req, knobs, state)
